@@ -42,6 +42,12 @@ def generate(ctx):
              "lr_a3": rng.choice([0.3, -0.3, 1.5, -1.5]), "lr_b3": rng.choice([0.2, -0.2, 1.2, -1.2])}
         if d["reward"] == "tensor":
             d["reduction"] = "sum"   # per-sample signals split the batch by sign: only a sum is reduction-order free
+        if rng.random() < 0.4:
+            # off the menu: time constants and learning-rate magnitudes drawn from continuous ranges
+            u = rng.uniform
+            d.update(tc_a=round(u(1.5, 40.0), 3), tc_b=round(u(1.5, 40.0), 3), tc_elig=round(u(3.0, 50.0), 2),
+                     mag=[round(u(0.01, 2.0), 4), round(u(0.01, 2.0), 4)])
+            d.update(tc_a_slow=round(d["tc_a"] + u(0.5, 60.0), 2), tc_b_slow=round(d["tc_b"] + u(0.5, 60.0), 2))   # documented: slow > fast
         yield d
 
 
@@ -73,9 +79,11 @@ def run_trainer_history(ctx, desc, prop, pre_seq, post_seq, rewards, extra_check
     name = desc["trainer"]
     a, b = SIGNS[desc["signs"]]
     hyper = {"lr_a": a, "lr_b": b, "trace_mode": desc.get("trace_mode", "cumulative"), "delayed": desc.get("delayed", False)}
-    for k in ("lr_a3", "lr_b3", "tensor_kwargs"):
+    for k in ("lr_a3", "lr_b3", "tensor_kwargs", "tc_a", "tc_b", "tc_a_slow", "tc_b_slow", "tc_elig"):
         if k in desc:
             hyper[k] = desc[k]
+    if "mag" in desc:
+        hyper["lr_a"], hyper["lr_b"] = a * desc["mag"][0], b * desc["mag"][1]
     kind = desc.get("conn", "dense1")
     conn_kind = "dense" if kind == "dense1" else kind
     red = desc.get("reduction", "sum")
